@@ -5,18 +5,12 @@
    members by vm_compute (bound: <= 8192 slots, <= 2.9k orbit members);
    the theorems quantify over all int32 runes. *)
 From Strcase Require Import Base Utf8 Fold FoldFacts FoldFacts2 FoldTables Refine_Compare.
+From Strcase Require Export FoldFacts121a FoldFacts121h.
 From StrcaseGen Require Tables121 Oracle Consts.
 From Coq Require Import FMapPositive ZifyBool ZifyNat.
 
 Definition R121 : rmap := build_rmap Oracle.orbits.
-Definition fold121 : Z -> Z := case_fold T121.
 
-Lemma range121 : chk_range T121 = true.
-Proof. vm_compute. reflexivity. Qed.
-Lemma slots121 : chk_slots T121 = true.
-Proof. vm_compute. reflexivity. Qed.
-Lemma idem121 : chk_idem T121 = true.
-Proof. vm_compute. reflexivity. Qed.
 Lemma pairs121 : chk_pairs_in_orbit T121 R121 = true.
 Proof. vm_compute. reflexivity. Qed.
 Lemma members121 : chk_members_fold T121 R121 = true.
@@ -25,12 +19,6 @@ Proof. vm_compute. reflexivity. Qed.
 Theorem fold121_orbit_exact a b :
   int32 a -> int32 b -> (fold121 a = fold121 b <-> rep R121 a = rep R121 b).
 Proof. apply (fold_orbit_exact T121 R121 range121 pairs121 members121). Qed.
-
-Theorem fold121_idempotent r : int32 r -> fold121 (fold121 r) = fold121 r.
-Proof. apply (fold_idempotent T121 range121 idem121). Qed.
-
-Theorem fold121_outside r : int32 r -> (r < 0 \/ 1114111 < r) -> fold121 r = r.
-Proof. apply (fold_outside_unicode T121 range121). Qed.
 
 (* ---- the finite checks on the regenerated data (complete enumerations by vm_compute) ---- *)
 Lemma singletons121 : holds (chk_singletons R121).
@@ -70,70 +58,6 @@ Lemma nonmember_special : is_member R121 65533 = false /\ is_member R121 304 = f
 Proof. exact (FoldFacts2.nonmember_special R121 singletons121). Qed.
 
 (* _lower of both packages agrees with CaseFold on ASCII and is the identity above *)
-Fixpoint zrange (n : nat) : list Z :=
-  match n with O => [] | S k => zrange k ++ [Z.of_nat k] end.
-Lemma zrange_in n b : 0 <= b < Z.of_nat n -> In b (zrange n).
-Proof.
-  induction n as [|n IH]; intros H; [lia|]. cbn [zrange]. apply in_or_app.
-  destruct (Z.eq_dec b (Z.of_nat n)) as [->|E]; [right; left; reflexivity|left; apply IH; lia].
-Qed.
-
-Definition chk_lower (lower : Z -> Z) : bool :=
-  forallb (fun b => if b <? 128 then (lower b =? fold121 b) && (lower b <? 128) else lower b =? b) (zrange 256).
-Lemma lower_str_ok : chk_lower lower_str = true.
-Proof. vm_compute. reflexivity. Qed.
-Lemma lower_byt_ok : chk_lower lower_byt = true.
-Proof. vm_compute. reflexivity. Qed.
-
-Lemma lower_spec lower b :
-  chk_lower lower = true -> 0 <= b < 256 ->
-  (b < 128 -> lower b = fold121 b /\ lower b < 128) /\ (128 <= b -> lower b = b).
-Proof.
-  intros H Hb. unfold chk_lower in H. rewrite forallb_forall in H.
-  specialize (H b (zrange_in 256 b ltac:(lia))). destruct (b <? 128) eqn:E; lia.
-Qed.
-
-Lemma int32_of_rune r : 0 <= r <= MaxRune -> int32 r.
-Proof. exact (FoldFacts2.int32_of_rune r). Qed.
-
-Theorem fold_facts_str : fold_facts fold121 lower_str.
-Proof.
-  split.
-  - intros r Hr. apply fold121_idempotent. apply int32_of_rune. exact Hr.
-  - intros b Hb. apply (lower_spec lower_str b lower_str_ok); lia.
-Qed.
-
-Theorem fold_facts_byt : fold_facts fold121 lower_byt.
-Proof.
-  split.
-  - intros r Hr. apply fold121_idempotent. apply int32_of_rune. exact Hr.
-  - intros b Hb. apply (lower_spec lower_byt b lower_byt_ok); lia.
-Qed.
-
-(* UnicodeVersion == unicode.Version *)
-Theorem version_matches : Tables121.unicode_version = Oracle.toolchain_version.
-Proof. vm_compute. reflexivity. Qed.
-Theorem version_recorded : Tables121.unicode_version = Tables121.recorded_unicode_version.
-Proof. vm_compute. reflexivity. Qed.
-
-(* the stored pairs are exactly the recorded UCD C+S set (by its SHA-256) *)
-Theorem ucd_hash_matches : case_fold_hash T121 = Tables121.recorded_case_fold_hash.
-Proof. vm_compute. reflexivity. Qed.
-
-(* on ASCII, CaseFold is ASCII lower-casing *)
-Lemma fold_ascii_chk : forallb (fun b => fold121 b =? Spec.lower_ascii b) (zrange 128) = true.
-Proof. vm_compute. reflexivity. Qed.
-Lemma fold_ascii b : 0 <= b < 128 -> fold121 b = Spec.lower_ascii b.
-Proof.
-  intros H. pose proof fold_ascii_chk as C. rewrite forallb_forall in C.
-  specialize (C b (zrange_in 128 b ltac:(lia))). lia.
-Qed.
-
-Definition lower_pkg (p : Impl.pkg) : Z -> Z :=
-  match p with Impl.Str => lower_str | Impl.Byt => lower_byt end.
-Lemma fold_facts_pkg p : fold_facts fold121 (lower_pkg p).
-Proof. destruct p; [apply fold_facts_str|apply fold_facts_byt]. Qed.
-
 Theorem rune_error_alone x : int32 x -> (fold121 x = fold121 RuneError <-> x = RuneError).
 Proof. unfold fold121. exact (FoldFacts2.rune_error_alone T121 R121 range121 pairs121 members121 singletons121 x). Qed.
 
